@@ -280,6 +280,10 @@ def builtin(eng: Engine, e, st: State, name: str, args: List[V], kwargs):
             todo.extend(eng.classes[cn].bases)
         eng.registry.note("copy.copy(obj): a new object with the same field values (shallow copy)")
         return [(st, new)]
+    if name == "range" and len(args) == 1:
+        if isinstance(args[0], VPy):
+            return [(st, VPy(range(args[0].obj)))]
+        return [(st, VPy(("range", eng.coerce(args[0], T.int, st, e))))]
     if name == "id" and len(args) == 1 and isinstance(args[0], VScalar) and args[0].ty.kind == "obj":
         return [(st, VScalar(args[0].z, T.int))]
     if name == "iter" and len(args) == 1:
